@@ -17,9 +17,9 @@ from holopy.scattering.theory.lens import Lens
 from holopy.scattering.theory import mielensfunctions as mlf
 
 ID = "C08"
-LEAN_MODULES = ["HoloProps.C08", "HoloProps.C08Formula"]
-MODEL_MODULES = ["HoloModel.LensQuad", "HoloModel.LensModel"]
-GEN_DEPS = []
+LEAN_MODULES = ["HoloProps.C08", "HoloProps.C08Formula", "HoloProps.C08Gen"]
+MODEL_MODULES = ["HoloModel.LensQuad", "HoloModel.LensModel", "HoloModel.CxExtra", "HoloGen.PyMieLens", "HoloGen.PyLens"]
+GEN_DEPS = ["PyMieLens", "PyLens"]
 NOT_PROVED = [
     "agreement of the two theories' VALUES: the Bessel-integral identities (1/2pi) int exp(iu cos(phi - phi_p)) {1, cos 2phi', sin 2phi'} dphi = {J0, -J2 cos 2phi_p', -J2 sin 2phi_p'} and quadrature convergence are analysis - searched over the 5-d box with quadrature refinement (incl. unequal orders)",
     "accuracy of the piecewise Chebyshev interpolation (interpolated vs direct evaluation): searched",
